@@ -107,6 +107,27 @@ impl Compound {
         }
     }
 
+    /// Raise the unit to the given power. Returns `None` if a power overflows.
+    pub(crate) fn checked_pow(&self, n: i32) -> Option<Self> {
+        let mut names = BTreeMap::new();
+
+        for (unit, state) in &self.names {
+            let power = state.power.checked_mul(n)?;
+
+            if power != 0 {
+                names.insert(
+                    *unit,
+                    State {
+                        power,
+                        prefix: state.prefix,
+                    },
+                );
+            }
+        }
+
+        Some(Self { names })
+    }
+
     /// Test if this unit has a numerator.
     pub fn has_numerator(&self) -> bool {
         self.names.values().any(|s| s.power > 0)
